@@ -14,6 +14,7 @@ DECIDED = ("R1 Kernel::bind: the socket is created and its binding inserted only
 NOT_DECIDED = "the accept/reject matrix as a function of live sockets; SO_REUSE* (not modelled)."
 DECIDED += "; R2 also the converse: wherever Socket::bound is set the binding index is updated in the same function"
 DECIDED += "; R4 also: a SYN for the pair of a Closed connection reaches the listener"
+DECIDED += '; R6 also: a port is allocated in the (domain, type) space it is then bound in'
 ASSUMPTIONS = []
 
 K = "turmoil_net::kernel::Kernel::"
